@@ -579,6 +579,24 @@ Definition go_render_Renderer_SetLOD (f_lod0 : Z) (f_lod1 : Z) (v_lod0 : Z) (v_l
 let '(f_lod0, f_lod1) := (v_lod0, v_lod1) in
 (f_lod0, f_lod1).
 
+(* render: Renderer SetCReg *)
+Definition go_render_Renderer_SetCReg (f_cReg : (list rgba)) (f_cSel : Z) (f_palette : (list rgba)) (v_adj : Z) (v_incr : bool) (v_c : gcolor) :=
+let f_cReg := (go_list_set f_cReg ((wrapu 8 (f_cSel - v_adj)) mod 64) (go_ivg_Color_Resolve 8%nat v_c f_palette f_cReg)) in
+if v_incr then (
+let f_cSel := ((wrapu 8 (f_cSel + 1)) mod 64) in
+(f_cReg, f_cSel))
+else (
+(f_cReg, f_cSel)).
+
+(* render: Renderer SetNReg *)
+Definition go_render_Renderer_SetNReg (f_nReg : (list Z)) (f_nSel : Z) (v_adj : Z) (v_incr : bool) (v_f : Z) :=
+let f_nReg := (go_list_set f_nReg ((wrapu 8 (f_nSel - v_adj)) mod 64) v_f) in
+if v_incr then (
+let f_nSel := ((wrapu 8 (f_nSel + 1)) mod 64) in
+(f_nReg, f_nSel))
+else (
+(f_nReg, f_nSel)).
+
 (* render: Renderer absX *)
 Definition go_render_Renderer_absX (f_biasX : Z) (f_scaleX : Z) (v_x : Z) :=
 (fmul F32 f_scaleX (fadd F32 v_x f_biasX)).
@@ -617,4 +635,4 @@ let v_x := (ffloor F64 (fadd F64 (fmul F64 (f32_to_f64 v_coord) 4634204016564240
 else (
 v_coord).
 
-(* translated: 65, untranslated: 0  *)
+(* translated: 67, untranslated: 0  *)
